@@ -53,29 +53,29 @@ def oslin_pre(a, num):
 
 @ensures(OS_LIN)
 def oslin_small(a, num, result):
-    return implies(num < 2, same_len(result, a) and forall(range(len(a)), lambda i: result[i] == a[i]))
+    return (same_len(result, a) and forall(range(len(a)), lambda i: result[i] == a[i])) if num < 2 else True
 
 
 @ensures(OS_LIN)
 def oslin_len(a, num, result):
-    return implies(num >= 2, is_ndarray(result) and len(result) == (len(a) - 1) * num + 1)
+    return (is_ndarray(result) and len(result) == (len(a) - 1) * num + 1) if num >= 2 else True
 
 
 @ensures(OS_LIN)
 def oslin_fill(a, num, result):
-    return implies(num >= 2, forall(range(len(a) - 1), lambda k: forall(range(num), lambda j:
-                   eq(result[k * num + j], a[k] + j * (a[k + 1] - a[k]) / num))))
+    return forall(range(len(a) - 1), lambda k: forall(range(num), lambda j:
+                  eq(result[k * num + j], a[k] + j * (a[k + 1] - a[k]) / num))) if num >= 2 else True
 
 
 @ensures(OS_LIN)
 def oslin_last(a, num, result):
-    return implies(num >= 2, result[(len(a) - 1) * num] == a[len(a) - 1])
+    return (result[(len(a) - 1) * num] == a[len(a) - 1]) if num >= 2 else True
 
 
 @ensures(OS_LIN)
 def oslin_keeps_originals(a, num, result):
     """every num-th element is an original element (exactly: j = 0 term of the linspace contract)"""
-    return implies(num >= 2, forall(range(len(a)), lambda k: result[k * num] == a[k]))
+    return forall(range(len(a)), lambda k: result[k * num] == a[k]) if num >= 2 else True
 
 
 # ------------------------------------------------------------------ oversample_piecewise_constant
@@ -90,11 +90,10 @@ def ospwc_pre(a, num):
 
 @ensures(OS_PWC)
 def ospwc_post(a, num, result):
-    return (implies(num < 2, same_len(result, a) and forall(range(len(a)), lambda i: result[i] == a[i]))
-            and implies(num >= 2,
-                        is_ndarray(result) and len(result) == (len(a) - 1) * num + 1
-                        and forall(range(len(a) - 1), lambda k: forall(range(num), lambda j: result[k * num + j] == a[k]))
-                        and result[(len(a) - 1) * num] == a[len(a) - 1]))
+    return ((same_len(result, a) and forall(range(len(a)), lambda i: result[i] == a[i])) if num < 2 else
+            (is_ndarray(result) and len(result) == (len(a) - 1) * num + 1
+             and forall(range(len(a) - 1), lambda k: forall(range(num), lambda j: result[k * num + j] == a[k]))
+             and result[(len(a) - 1) * num] == a[len(a) - 1]))
 
 
 # ------------------------------------------------------------------ extend_linspace
@@ -140,12 +139,14 @@ def extlin_post(a, n, direction, lstart, rstop, result):
             # the original elements sit in the middle
             and forall(range(len(a)), lambda i: result[n_left(n, direction) + i] == a[i])
             # left continuation: linear from the start value up to (excluding) a[0]
-            and implies(wants_left(direction), forall(range(n), lambda j:
-                        eq(result[j], left_start(a, n, lstart) + j * (a[0] - left_start(a, n, lstart)) / n)))
+            and (forall(range(n), lambda j:
+                        eq(result[j], left_start(a, n, lstart) + j * (a[0] - left_start(a, n, lstart)) / n))
+                 if wants_left(direction) else True)
             # right continuation: linear from (excluding) a[-1] to the stop value
-            and implies(wants_right(direction), forall(range(n), lambda j:
+            and (forall(range(n), lambda j:
                         eq(result[n_left(n, direction) + len(a) + j],
-                           a[len(a) - 1] + (j + 1) * (right_stop(a, n, rstop) - a[len(a) - 1]) / n))))
+                           a[len(a) - 1] + (j + 1) * (right_stop(a, n, rstop) - a[len(a) - 1]) / n))
+                 if wants_right(direction) else True))
 
 
 # ------------------------------------------------------------------ extend_constant
@@ -163,9 +164,9 @@ def extconst_post(a, n, direction, result):
     return (is_ndarray(result)
             and len(result) == len(a) + n_left(n, direction) + n_right(n, direction)
             and forall(range(len(a)), lambda i: result[n_left(n, direction) + i] == a[i])
-            and implies(wants_left(direction), forall(range(n), lambda j: result[j] == a[0]))
-            and implies(wants_right(direction), forall(range(n), lambda j:
-                        result[n_left(n, direction) + len(a) + j] == a[len(a) - 1])))
+            and (forall(range(n), lambda j: result[j] == a[0]) if wants_left(direction) else True)
+            and (forall(range(n), lambda j: result[n_left(n, direction) + len(a) + j] == a[len(a) - 1])
+                 if wants_right(direction) else True))
 
 
 # ------------------------------------------------------------------ integration rules
